@@ -1,6 +1,6 @@
-(* C12 — the weight configuration: state machine of set_from_standard_qtomography_option_data, the
-   inverse-covariance construction, the refutation witnesses (computed over Qc) and the behaviour after the
-   proposed fixes.  Axiom-free. *)
+(* C12 — the weight configuration: state machine of set_from_standard_qtomography_option_data (THE REPAIRED CODE), the
+   inverse-covariance construction, and — for the record — the refutation witnesses (computed over Qc) about the
+   [_prefix] definitions, i.e. the code as it was before the fixes c12-* in /verif/fixes.  Axiom-free. *)
 From Coq Require Import Ring Field Setoid Arith Lia Bool List QArith Qcanon.
 From QV.Core Require Import OF Sums Mat QcOF.
 From QV.Model Require Import C12_Loss.
@@ -12,73 +12,118 @@ Section Config.
 Context {R : CR}.
 Notation mat := (@mat R). Notation vec := (@vec R). Notation wts := (@wts R).
 Notation fstate := (@fstate R). Notation cstep := (@cstep R).
+Notation rstate := (@rstate R). Notation rstep := (@rstep R).
 
 Definition ext_matches_st (N m : nat) (st : fstate) : Prop := ext_matches N m (f_w st) (f_ext st).
 
-(* the fast class always holds the same WEIGHTS as the generic class ... *)
-Lemma config_fast_weights m md (c : wts) k (st : fstate) :
-  match config_fast m md c k st, config_generic md c k (f_w st) with
+(* every mode the option classes accept takes effect, whatever the object held before *)
+Lemma modes_effective md (c : wts) k (cur : wts) : set_weights_by_mode md c k cur = mode_spec md c k.
+Proof. destruct md; reflexivity. Qed.
+Lemma config_generic_history_independent md (c : wts) k (cur cur' : wts) :
+  config_generic md c k cur = config_generic md c k cur'.
+Proof. unfold config_generic. now rewrite !modes_effective. Qed.
+
+(* _calc_extend_weight_matrix always leaves a cache that matches the weights *)
+Lemma calc_ext_matches N m (st : fstate) : ext_matches_st N m (calc_ext m st).
+Proof. unfold ext_matches_st, calc_ext; cbn. destruct (f_w st); cbn; [apply meq_refl|exact I]. Qed.
+Lemma calc_ext_w m (st : fstate) : f_w (calc_ext m st) = f_w st.
+Proof. reflexivity. Qed.
+Lemma set_direct_fast_ok N m (w : wts) (st : fstate) :
+  f_w (set_direct_fast m w st) = w /\ ext_matches_st N m (set_direct_fast m w st).
+Proof. split; [reflexivity|apply calc_ext_matches]. Qed.
+
+(* one configuration of the fast class: same weights as the generic class, cache = extension of THOSE weights *)
+Lemma config_fast_ok N m md (c : wts) k (st st' : fstate) :
+  config_fast m md c k st = COk st' ->
+  config_generic md c k (f_w st) = COk (f_w st') /\ ext_matches_st N m st'.
+Proof. unfold config_fast, config_generic. rewrite !calc_ext_w.
+  destruct (set_weights_by_mode md c k (f_w st)) as [w|]; intros H; inversion H; subst.
+  split; [reflexivity|apply calc_ext_matches]. Qed.
+Lemma config_fast_err m md (c : wts) k (st : fstate) :
+  config_fast m md c k st = CErr -> config_generic md c k (f_w st) = CErr.
+Proof. unfold config_fast, config_generic. rewrite !calc_ext_w.
+  destruct (set_weights_by_mode md c k (f_w st)); [discriminate|reflexivity]. Qed.
+(* ... and its result does not depend on what the object held before *)
+Lemma config_fast_history_independent m md (c : wts) k (st st' : fstate) :
+  config_fast m md c k st = config_fast m md c k st'.
+Proof. unfold config_fast. rewrite !calc_ext_w, !modes_effective.
+  destruct (mode_spec md c k); reflexivity. Qed.
+
+Lemma step_fast_ok N m (s : cstep) (st st' : fstate) :
+  step_fast m s st = COk st' -> step_generic s (f_w st) = COk (f_w st') /\ ext_matches_st N m st'.
+Proof. destruct s as [md c k|w]; cbn [step_fast step_generic].
+  - apply config_fast_ok.
+  - intros H; inversion H; subst. split; [reflexivity|apply calc_ext_matches]. Qed.
+Lemma step_fast_err m (s : cstep) (st : fstate) : step_fast m s st = CErr -> step_generic s (f_w st) = CErr.
+Proof. destruct s as [md c k|w]; cbn [step_fast step_generic]; [apply config_fast_err|discriminate]. Qed.
+
+Lemma run_fast_ok N m (steps : list cstep) : forall (st st' : fstate),
+  ext_matches_st N m st -> run_fast m steps st = COk st' ->
+  run_generic steps (f_w st) = COk (f_w st') /\ ext_matches_st N m st'.
+Proof. induction steps as [|s t IH]; intros st st' H0 H; cbn in *.
+  - inversion H; subst. auto.
+  - destruct (step_fast m s st) as [st1|] eqn:E1; [|discriminate].
+    destruct (step_fast_ok N m s st st1 E1) as [Hg Hm]. rewrite Hg. now apply IH. Qed.
+Lemma run_fast_err m (steps : list cstep) : forall (st : fstate),
+  run_fast m steps st = CErr -> run_generic steps (f_w st) = CErr.
+Proof. induction steps as [|s t IH]; intros st H; cbn in *; [discriminate|].
+  destruct (step_fast m s st) as [st1|] eqn:E1.
+  - destruct (step_fast_ok 0 m s st st1 E1) as [Hg _]. rewrite Hg. now apply IH.
+  - now rewrite (step_fast_err m s st E1). Qed.
+
+(* consequence: after ANY history (configurations with any modes, direct setter calls) on an object whose cache was
+   consistent to begin with (e.g. a fresh one) the fast class returns the generic value and gradient *)
+Lemma fast_agrees ns m nv (steps : list cstep) (st st' : fstate) (A : mat) (b q v : vec) :
+  ext_matches_st (ns * m) m st -> run_fast m steps st = COk st' ->
+  run_generic steps (f_w st) = COk (f_w st') /\
+  fast_value (ns * m) nv (f_ext st') A b q v = se_value ns m nv (f_w st') A b q v /\
+  forall al, fast_grad (ns * m) nv (f_ext st') A b q v al = se_grad ns m nv (f_w st') A b q v al.
+Proof. intros H0 H. destruct (run_fast_ok (ns * m) m steps st st' H0 H) as [Hg Hm].
+  split; [exact Hg|]. split; [now apply fast_value_eq|]. intros al. now apply fast_grad_eq. Qed.
+
+(* --- relative entropy *)
+Lemma config_re_is_spec cm (custom cur : option vec) : config_re cm custom cur = config_re_spec cm custom.
+Proof. reflexivity. Qed.
+Lemma calc_ew_ok m (st : rstate) : rstate_ok m (calc_ew m st) /\ r_w (calc_ew m st) = r_w st.
+Proof. unfold rstate_ok, calc_ew. destruct (r_w st) eqn:E; cbn; rewrite ?E; auto. Qed.
+Lemma set_weights_re_fast_ok m w (st : rstate) :
+  rstate_ok m (set_weights_re_fast m true w st) /\ r_w (set_weights_re_fast m true w st) = w.
+Proof. unfold set_weights_re_fast. apply calc_ew_ok. Qed.
+Lemma config_re_fast_ok m cm (custom : option vec) (st : rstate) :
+  rstate_ok m (config_re_fast m cm custom st) /\ r_w (config_re_fast m cm custom st) = config_re_spec cm custom.
+Proof. unfold config_re_fast. apply set_weights_re_fast_ok. Qed.
+Lemma step_re_fast_ok m (s : rstep) (st : rstate) :
+  rstate_ok m (step_re_fast m s st) /\ r_w (step_re_fast m s st) = step_re s (r_w st).
+Proof. destruct s as [cm c|w]; cbn [step_re_fast step_re]; [apply config_re_fast_ok|apply set_weights_re_fast_ok]. Qed.
+Lemma run_re_fast_ok m (steps : list rstep) : forall st : rstate, rstate_ok m st ->
+  rstate_ok m (run_re_fast m steps st) /\ r_w (run_re_fast m steps st) = run_re steps (r_w st).
+Proof. induction steps as [|s t IH]; intros st H0; cbn; [auto|].
+  destruct (step_re_fast_ok m s st) as [Hok Hw]. destruct (IH _ Hok) as [H1 H2]. split; [exact H1|]. now rewrite H2, Hw. Qed.
+Lemma re_fast_sel_ok m (st : rstate) : rstate_ok m st ->
+  re_fast_sel st = COk (match r_w st with Some w => Some (ew_of' m w) | None => None end).
+Proof. unfold rstate_ok, re_fast_sel. destruct (r_w st); [intros ->; reflexivity|reflexivity]. Qed.
+
+(* --- the code as it was before the fixes (used by the _refuted theorems only) *)
+Lemma config_fast_prefix_weights m md (c : wts) k (st : fstate) :
+  match config_fast_prefix m md c k st, config_generic_prefix md c k (f_w st) with
   | COk st', COk w => f_w st' = w
   | CErr, CErr => True
   | _, _ => False
   end.
-Proof. unfold config_fast, config_generic.
-  assert (E : f_w (calc_ext m (calc_ext m st)) = f_w st).
-  { unfold calc_ext. destruct (f_w st) eqn:Ew; cbn; rewrite ?Ew; cbn; rewrite ?Ew; reflexivity. }
-  rewrite E. destruct (set_weights_by_mode md c k (f_w st)); cbn; auto. Qed.
-(* ... but its cache is the extension of the weights it held BEFORE the call (or is left untouched) *)
-Lemma config_fast_cache m md (c : wts) k (st st' : fstate) :
-  config_fast m md c k st = COk st' ->
+Proof. unfold config_fast_prefix, config_generic_prefix.
+  assert (E : f_w (calc_ext_prefix m (calc_ext_prefix m st)) = f_w st).
+  { unfold calc_ext_prefix. destruct (f_w st) eqn:Ew; cbn; rewrite ?Ew; cbn; rewrite ?Ew; reflexivity. }
+  rewrite E. destruct (set_weights_by_mode_prefix md c k (f_w st)); cbn; auto. Qed.
+Lemma config_fast_prefix_cache m md (c : wts) k (st st' : fstate) :
+  config_fast_prefix m md c k st = COk st' ->
   f_ext st' = match f_w st with Some w => Some (ext_of m w) | None => f_ext st end.
-Proof. unfold config_fast.
-  assert (E : f_ext (calc_ext m (calc_ext m st)) = match f_w st with Some w => Some (ext_of m w) | None => f_ext st end).
-  { unfold calc_ext. destruct (f_w st) eqn:Ew; cbn; rewrite ?Ew; cbn; rewrite ?Ew; reflexivity. }
-  destruct (set_weights_by_mode md c k _); intros H; inversion H; subst; cbn. exact E. Qed.
-
-(* with the proposed fix the cache always matches the weights, whatever the history *)
-Lemma config_fast_fixed_ok N m md (c : wts) k (st st' : fstate) :
-  config_fast_fixed m md c k st = COk st' ->
-  config_generic md c k (f_w st) = COk (f_w st') /\ ext_matches_st N m st'.
-Proof. unfold config_fast_fixed, config_generic, ext_matches_st.
-  destruct (set_weights_by_mode md c k (f_w st)) as [w|]; intros H; inversion H; subst; cbn. split; [reflexivity|].
-  destruct w; cbn; [apply meq_refl|exact I]. Qed.
-Lemma config_fast_fixed_err m md (c : wts) k (st : fstate) :
-  config_fast_fixed m md c k st = CErr -> config_generic md c k (f_w st) = CErr.
-Proof. unfold config_fast_fixed, config_generic. destruct (set_weights_by_mode md c k (f_w st)); [discriminate|reflexivity]. Qed.
-
-Lemma run_fast_fixed_ok N m (steps : list cstep) : forall (st st' : fstate),
-  ext_matches_st N m st -> run_fast_fixed m steps st = COk st' ->
-  run_generic steps (f_w st) = COk (f_w st') /\ ext_matches_st N m st'.
-Proof. induction steps as [|[[md c] k] t IH]; intros st st' H0 H; cbn in *.
-  - inversion H; subst. auto.
-  - destruct (config_fast_fixed m md c k st) as [st1|] eqn:E1; [|discriminate].
-    destruct (config_fast_fixed_ok N m md c k st st1 E1) as [Hg Hm]. rewrite Hg. now apply IH. Qed.
-Lemma run_fast_fixed_err m (steps : list cstep) : forall (st : fstate),
-  run_fast_fixed m steps st = CErr -> run_generic steps (f_w st) = CErr.
-Proof. induction steps as [|[[md c] k] t IH]; intros st H; cbn in *; [discriminate|].
-  destruct (config_fast_fixed m md c k st) as [st1|] eqn:E1.
-  - destruct (config_fast_fixed_ok 0 m md c k st st1 E1) as [Hg _]. rewrite Hg. now apply IH.
-  - now rewrite (config_fast_fixed_err m md c k st E1). Qed.
-
-(* consequence: after ANY history the fixed fast class returns the generic value and gradient *)
-Lemma fixed_fast_agrees ns m nv (steps : list cstep) (st' : fstate) (A : mat) (b q v : vec) :
-  run_fast_fixed m steps fresh = COk st' ->
-  run_generic steps None = COk (f_w st') /\
-  fast_value (ns * m) nv (f_ext st') A b q v = se_value ns m nv (f_w st') A b q v /\
-  forall al, fast_grad (ns * m) nv (f_ext st') A b q v al = se_grad ns m nv (f_w st') A b q v al.
-Proof. intros H. destruct (run_fast_fixed_ok (ns * m) m steps fresh st') as [Hg Hm]; [exact I|exact H|].
-  split; [exact Hg|]. split; [now apply fast_value_eq|]. intros al. now apply fast_grad_eq. Qed.
-
-(* which modes take effect in the code as it is *)
-Lemma modes_effective md (c : wts) k (cur : wts) :
-  (md = MCustom \/ md = MInvSample \/ md = MInvUnbiased \/ (md = MIdentity /\ cur = None)) ->
-  set_weights_by_mode md c k cur = mode_spec md c k.
-Proof. intros [->|[->|[->|[-> ->]]]]; reflexivity. Qed.
-Lemma mode_identity_keeps md (c : wts) k (cur : wts) :
-  md = MIdentity \/ md = MAliasUnbiasedInv -> set_weights_by_mode md c k cur = COk cur.
+Proof. unfold config_fast_prefix.
+  assert (E : f_ext (calc_ext_prefix m (calc_ext_prefix m st)) = match f_w st with Some w => Some (ext_of m w) | None => f_ext st end).
+  { unfold calc_ext_prefix. destruct (f_w st) eqn:Ew; cbn; rewrite ?Ew; cbn; rewrite ?Ew; reflexivity. }
+  destruct (set_weights_by_mode_prefix md c k _); intros H; inversion H; subst; cbn. exact E. Qed.
+Lemma mode_identity_keeps_prefix md (c : wts) k (cur : wts) :
+  md = MIdentity \/ md = MAliasUnbiasedInv -> set_weights_by_mode_prefix md c k cur = COk cur.
 Proof. intros [->| ->]; reflexivity. Qed.
-Lemma config_re_ignores (custom cur : option vec) : config_re custom cur = cur.
-Proof. reflexivity. Qed.
 End Config.
 
 (* ------------------------------------------------------------------ inverse-covariance construction *)
@@ -94,41 +139,41 @@ Proof. unfold cov_mat. rewrite (Nat.eqb_sym y x). destruct (Nat.eqb_spec x y) as
 Lemma extracted_sym (q : vec) ncov n32 x y : extracted F q ncov n32 x y = extracted F q ncov n32 y x.
 Proof. unfold extracted. now rewrite cov_mat_sym, (Nat.eqb_sym y x). Qed.
 
-(* the slice assignment as coded fails for every outcome count other than 2 *)
-Lemma place_inv_none row (inv : mat) : (1 <= row)%nat -> row <> 2%nat -> place_inv F row inv = None.
-Proof. intros H1 H2. unfold place_inv. destruct (Nat.eqb_spec row 2); [contradiction|].
-  unfold assign_bcast.
-  replace (Nat.eqb (row - 1) row) with false by (symmetry; apply Nat.eqb_neq; lia).
-  replace (Nat.eqb (row - 1) 1) with false by (symmetry; apply Nat.eqb_neq; lia). reflexivity. Qed.
-Lemma inv_cov_weights_none ns m (invs : nat -> mat) :
-  (1 <= ns)%nat -> (1 <= m)%nat -> m <> 2%nat -> inv_cov_weights F false ns m invs = None.
-Proof. intros Hns Hm H2. unfold inv_cov_weights, all_some. destruct ns as [|ns]; [lia|].
-  cbn [seq forallb]. now rewrite place_inv_none. Qed.
-Lemma inverse_modes_raise ns m (invs : nat -> mat) md (custom cur : @wts F) :
-  (1 <= ns)%nat -> (1 <= m)%nat -> m <> 2%nat -> md = MInvSample \/ md = MInvUnbiased ->
-  config_generic md custom (inv_cov_weights F false ns m invs) cur = CErr.
-Proof. intros Hns Hm H2 Hmd. rewrite inv_cov_weights_none by assumption. destruct Hmd as [-> | ->]; reflexivity. Qed.
-(* for 2 outcomes the coded placement is the intended one *)
-Lemma place_inv_2 (inv : mat) : exists W W', place_inv F 2 inv = Some W /\ place_inv_fixed F 2 inv = Some W' /\ forall x y, W x y = W' x y.
-Proof. eexists; eexists. split; [reflexivity|]. split; [reflexivity|]. intros x y.
-  destruct x as [|x], y as [|y]; reflexivity. Qed.
+(* the slice assignment dst[:r,:c] = src with src of exactly that shape always succeeds *)
+Lemma assign_bcast_same r c (src : mat) :
+  assign_bcast F r c r c src = Some (fun x y => if (x <? r) && (y <? c) then src x y else 0).
+Proof. unfold assign_bcast. rewrite !Nat.eqb_refl. reflexivity. Qed.
 
-(* after the proposed fix: weights exist for every outcome count, are symmetric, vanish on the last row and
-   column and carry the inverse on the leading block, so the value is the reduced quadratic form *)
+Lemma sym_half_sym (inv : mat) x y : sym_half F inv x y = sym_half F inv y x.
+Proof. unfold sym_half. f_equal. ring. Qed.
+Lemma two_neq0 : 1 + 1 <> 0.
+Proof. apply (double_neq0 F). apply (one_neq_zero F). Qed.
+Lemma sym_half_of_sym (inv : mat) x y : inv x y = inv y x -> sym_half F inv x y = inv x y.
+Proof. intros E. unfold sym_half. rewrite <- E. field. exact two_neq0. Qed.
+
+(* the placement: for EVERY outcome count the weights exist and are the symmetrised inverse on the leading block *)
+Lemma place_inv_some row (inv : mat) :
+  exists W, place_inv F row inv = Some W /\ forall x y, W x y = lead_block F row (sym_half F inv) x y.
+Proof. unfold place_inv. destruct (Nat.eqb_spec row 2) as [->|Hne].
+  - eexists. split; [reflexivity|]. intros x y. unfold lead_block.
+    destruct x as [|x], y as [|y]; reflexivity.
+  - rewrite assign_bcast_same. eexists. split; [reflexivity|]. intros x y. reflexivity. Qed.
 Lemma forallb_seq_true (f : nat -> bool) n : forall s, (forall j, (s <= j < s + n)%nat -> f j = true) -> forallb f (seq s n) = true.
 Proof. induction n as [|n IH]; intros s H; [reflexivity|]. cbn. rewrite H by lia. apply IH. intros j Hj. apply H. lia. Qed.
-Lemma inv_cov_weights_fixed ns m (invs : nat -> mat) :
-  exists w, inv_cov_weights F true ns m invs = Some w /\
-    forall j x y, (j < ns)%nat -> w j x y = if (x <? m - 1) && (y <? m - 1) then invs j x y else 0.
-Proof. unfold inv_cov_weights, all_some. rewrite forallb_seq_true by reflexivity.
-  eexists. split; [reflexivity|]. intros j x y _. reflexivity. Qed.
-Lemma placed_sym m (inv : mat) : msym (m - 1) inv ->
-  msym m (fun x y => if (x <? m - 1) && (y <? m - 1) then inv x y else 0).
-Proof. intros Hs x y _ _. rewrite (andb_comm (y <? m - 1)).
+Lemma inv_cov_weights_some ns m (invs : nat -> mat) :
+  exists w, inv_cov_weights F ns m invs = Some w /\
+    forall j x y, w j x y = lead_block F m (sym_half F (invs j)) x y.
+Proof. unfold inv_cov_weights, all_some. rewrite forallb_seq_true.
+  2:{ intros j _. destruct (place_inv_some m (invs j)) as [W [-> _]]. reflexivity. }
+  eexists. split; [reflexivity|]. intros j x y. cbn beta.
+  destruct (place_inv_some m (invs j)) as [W [-> HW]]. apply HW. Qed.
+Lemma lead_block_sym m (inv : mat) : msym (m - 1) inv -> msym m (lead_block F m inv).
+Proof. intros Hs x y _ _. unfold lead_block. rewrite (andb_comm (y <? m - 1)).
   destruct (Nat.ltb_spec x (m - 1)), (Nat.ltb_spec y (m - 1)); cbn; auto. Qed.
-Lemma qfm_placed k (inv : mat) (d : vec) :
-  qfm (S k) (fun x y => if (x <? S k - 1) && (y <? S k - 1) then inv x y else 0) d = qfm k inv d.
-Proof. replace (S k - 1)%nat with k by lia.
+Lemma lead_block_sym_half_sym m (inv : mat) : msym m (lead_block F m (sym_half F inv)).
+Proof. apply lead_block_sym. intros x y _ _. apply sym_half_sym. Qed.
+Lemma qfm_lead_block k (inv : mat) (d : vec) : qfm (S k) (lead_block F (S k) inv) d = qfm k inv d.
+Proof. unfold lead_block. replace (S k - 1)%nat with k by lia.
   set (W := fun x y : nat => if (x <? k) && (y <? k) then inv x y else 0).
   assert (Wk1 : forall a, W a k = 0) by (intros a; unfold W; rewrite Nat.ltb_irrefl, andb_false_r; reflexivity).
   assert (Wk2 : forall c, W k c = 0) by (intros c; unfold W; rewrite Nat.ltb_irrefl; reflexivity).
@@ -150,6 +195,20 @@ Proof. intros [H1 H2] [H1' H2'] x y Hx Hy.
   rewrite <- mmul_assoc.
   rewrite (mmul_ext k (mmul k inv M) mid inv' inv' k k H2 (meq_refl k k inv') x y Hx Hy).
   now apply mmul_id_l. Qed.
+(* the inverse of a symmetric matrix is symmetric, hence the symmetrisation in the code is the identity on the
+   exact inverse (it only removes the rounding asymmetry of np.linalg.inv) *)
+Lemma mid_sym x y : @mid F x y = @mid F y x.
+Proof. unfold mid. now rewrite Nat.eqb_sym. Qed.
+Lemma inverse_transpose k (M inv : mat) : msym k M -> is_inverse F k M inv -> is_inverse F k M (mT inv).
+Proof. intros HM [H1 H2]. split; intros x y Hx Hy.
+  - rewrite mid_sym, <- (H2 y x Hy Hx). unfold mmul, mT. apply sumn_ext; intros j Hj. rewrite (HM x j Hx Hj). ring.
+  - rewrite mid_sym, <- (H1 y x Hy Hx). unfold mmul, mT. apply sumn_ext; intros j Hj. rewrite (HM j y Hj Hy). ring. Qed.
+Lemma inverse_of_sym_is_sym k (M inv : mat) : msym k M -> is_inverse F k M inv -> msym k inv.
+Proof. intros HM Hi x y Hx Hy.
+  exact (is_inverse_unique k M inv (mT inv) Hi (inverse_transpose k M inv HM Hi) x y Hx Hy). Qed.
+Lemma sym_half_exact_inverse k (M inv : mat) : msym k M -> is_inverse F k M inv -> meq k k (sym_half F inv) inv.
+Proof. intros HM Hi x y Hx Hy. apply sym_half_of_sym. exact (inverse_of_sym_is_sym k M inv HM Hi x y Hx Hy). Qed.
+
 Lemma forallb_seq_spec (f : nat -> bool) n : forall s, forallb f (seq s n) = true -> forall j, (s <= j < s + n)%nat -> f j = true.
 Proof. induction n as [|n IH]; intros s H j Hj; [lia|]. cbn in H. apply andb_true_iff in H. destruct H as [H0 H1].
   destruct (Nat.eq_dec j s) as [->|Hne]; [exact H0|]. apply (IH (S s) H1). lia. Qed.
@@ -160,6 +219,27 @@ Proof. intros H. unfold is_inverse_b in H.
     pose proof (forallb_seq_spec _ k 0 Hrow y ltac:(lia)) as Hc. cbn beta in Hc.
     apply andb_true_iff in Hc. destruct Hc as [Ha Hb]. split; now apply keqb_spec. }
   split; intros x y Hx Hy; now apply G. Qed.
+
+(* --- the code as it was before fix c12-se-inverse-covariance-shape: the slice assignment W[:row,:col] = inverse of shape
+       (row-1, row-1) fails for every outcome count other than 2 *)
+Lemma place_inv_prefix_none row (inv : mat) : (1 <= row)%nat -> row <> 2%nat -> place_inv_prefix F row inv = None.
+Proof. intros H1 H2. unfold place_inv_prefix. destruct (Nat.eqb_spec row 2); [contradiction|].
+  unfold assign_bcast.
+  replace (Nat.eqb (row - 1) row) with false by (symmetry; apply Nat.eqb_neq; lia).
+  replace (Nat.eqb (row - 1) 1) with false by (symmetry; apply Nat.eqb_neq; lia). reflexivity. Qed.
+Lemma inv_cov_weights_prefix_none ns m (invs : nat -> mat) :
+  (1 <= ns)%nat -> (1 <= m)%nat -> m <> 2%nat -> inv_cov_weights_prefix F ns m invs = None.
+Proof. intros Hns Hm H2. unfold inv_cov_weights_prefix, all_some. destruct ns as [|ns]; [lia|].
+  cbn [seq forallb]. now rewrite place_inv_prefix_none. Qed.
+Lemma inverse_modes_raise_prefix ns m (invs : nat -> mat) md (custom cur : @wts F) :
+  (1 <= ns)%nat -> (1 <= m)%nat -> m <> 2%nat -> md = MInvSample \/ md = MInvUnbiased ->
+  config_generic_prefix md custom (inv_cov_weights_prefix F ns m invs) cur = CErr.
+Proof. intros Hns Hm H2 Hmd. rewrite inv_cov_weights_prefix_none by assumption. destruct Hmd as [-> | ->]; reflexivity. Qed.
+(* for 2 outcomes (the only case the upstream tests exercise) the old and the new placement coincide (a 1 x 1 inverse is symmetric) *)
+Lemma place_inv_2_agrees (inv : mat) :
+  exists W W', place_inv_prefix F 2 inv = Some W /\ place_inv F 2 inv = Some W' /\ forall x y, W x y = W' x y.
+Proof. eexists; eexists. split; [reflexivity|]. split; [reflexivity|]. intros x y. cbn beta.
+  destruct (Nat.eqb x 0 && Nat.eqb y 0); [|reflexivity]. symmetry. now apply sym_half_of_sym. Qed.
 End Weights.
 
 (* ------------------------------------------------------------------ witnesses (Qc, computed) *)
@@ -180,12 +260,12 @@ Proof. intros H E. rewrite E in H. rewrite (proj2 (Qeq_bool_iff _ _) (Qeq_refl _
    reused object: the fast value uses the PREVIOUS data set's weights *)
 Lemma fast_stale_witness :
   exists (c1 c2 : nat -> @mat Rq) (A : @mat Rq) (b q v : @vec Rq) (st1 st2 : @fstate Rq),
-    config_fast 2 MInvSample None (Some c1) fresh = COk st1 /\
-    config_generic MInvSample None (Some c1) None = COk (f_w st1) /\
+    config_fast_prefix 2 MInvSample None (Some c1) fresh = COk st1 /\
+    config_generic_prefix MInvSample None (Some c1) None = COk (f_w st1) /\
     fast_value 2 1 (f_ext st1) A b q v <> se_value 1 2 1 (f_w st1) A b q v /\
     fast_value 2 1 (f_ext st1) A b q v = se_value 1 2 1 None A b q v /\
-    config_fast 2 MInvSample None (Some c2) st1 = COk st2 /\
-    config_generic MInvSample None (Some c2) (f_w st1) = COk (f_w st2) /\
+    config_fast_prefix 2 MInvSample None (Some c2) st1 = COk st2 /\
+    config_generic_prefix MInvSample None (Some c2) (f_w st1) = COk (f_w st2) /\
     fast_value 2 1 (f_ext st2) A b q v <> se_value 1 2 1 (f_w st2) A b q v /\
     fast_value 2 1 (f_ext st2) A b q v = se_value 1 2 1 (f_w st1) A b q v.
 Proof. exists (wW 3), (wW 5), wA, wz, wz, wv. eexists. eexists.
@@ -195,14 +275,14 @@ Proof. exists (wW 3), (wW 5), wA, wz, wz, wv. eexists. eexists.
 
 Lemma alias_mode_witness :
   exists (c1 : nat -> @mat Rq) (A : @mat Rq) (b q v : @vec Rq) (W Wspec : @wts Rq),
-    config_generic MAliasUnbiasedInv None (Some c1) None = COk W /\ mode_spec MAliasUnbiasedInv None (Some c1) = COk Wspec /\
+    config_generic_prefix MAliasUnbiasedInv None (Some c1) None = COk W /\ mode_spec MAliasUnbiasedInv None (Some c1) = COk Wspec /\
     se_value 1 2 1 W A b q v <> se_value 1 2 1 Wspec A b q v.
 Proof. exists (wW 3), wA, wz, wz, wv. eexists. eexists. split; [reflexivity|]. split; [reflexivity|].
   apply qc_neq; vm_compute; reflexivity. Qed.
 
 Lemma identity_mode_witness :
   exists (c1 : nat -> @mat Rq) (A : @mat Rq) (b q v : @vec Rq) (W1 W2 Wspec : @wts Rq),
-    config_generic MInvSample None (Some c1) None = COk W1 /\ config_generic MIdentity None None W1 = COk W2 /\
+    config_generic_prefix MInvSample None (Some c1) None = COk W1 /\ config_generic_prefix MIdentity None None W1 = COk W2 /\
     mode_spec MIdentity None None = COk Wspec /\ se_value 1 2 1 W2 A b q v <> se_value 1 2 1 Wspec A b q v.
 Proof. exists (wW 3), wA, wz, wz, wv. eexists. eexists. eexists. split; [reflexivity|]. split; [reflexivity|].
   split; [reflexivity|]. apply qc_neq; vm_compute; reflexivity. Qed.
@@ -214,8 +294,8 @@ Definition wb : @vec Qc_OF := fun _ => Q2Qc (1 # 2).
 Definition weps : Qc := Q2Qc (1 # 1000).
 Lemma re_custom_witness :
   exists (custom : @vec Qc_OF) (A : @mat Qc_OF) (b q v : @vec Qc_OF),
-    config_re (Some custom) None = None /\ config_re_spec true (Some custom) = Some custom /\
-    re_grad Qc_OF 1 2 1 (config_re (Some custom) None) weps weps A b q v O
+    config_re_prefix true (Some custom) None = None /\ config_re_spec true (Some custom) = Some custom /\
+    re_grad Qc_OF 1 2 1 (config_re_prefix true (Some custom) None) weps weps A b q v O
       <> re_grad Qc_OF 1 2 1 (config_re_spec true (Some custom)) weps weps A b q v O.
 Proof. exists (fun _ => qn 2), wA, wb, wq, wz. split; [reflexivity|]. split; [reflexivity|].
   apply qc_neq; vm_compute; reflexivity. Qed.
